@@ -62,7 +62,10 @@ def check_C04(tier):
     rep = Report.get('C04', tier)
     env = Env()
     conf = extract_conf(env)
-    c1 = core_family(rep, env, conf, 'query', tier, 'C04 family: typed Sids x query overlays (trailing ? and get_with(query=))')
+    c1 = core_family(rep, env, conf, 'query', 'quick', 'C04 family: typed Sids x query overlays of up to two pairs (trailing ? and get_with(query=))')
+    if tier == 'thorough':
+        # the deeper tier adds search Sids ('*' at every subset of positions) under every single-pair overlay
+        c1 += core_family(rep, env, conf, 'query', 'thorough', 'C04 family: typed search Sids (every subset of positions starred) x one-pair overlays')
     c2 = core_family(rep, env, conf, 'getwith', tier, 'C04 family: typed Sids x keyword overlays incl. None')
     rep.exhaustive = True
     need = ['NoType', 'OneType', 'ManyKeepsOld', 'ManySearchFirst']
@@ -233,9 +236,16 @@ def check_C19(tier):
             c['toX'] = sorted(tox['__set__']) if isinstance(tox, dict) else list(tox)
             out.append(dict(op='extrapolate', cfg=c))
         return out
-    calls = K.spec_to_code(rep, env, conf, 'MC_Extrapolate', 'MC_Extrapolate_%s.cfg' % tier,
-                           'grammar of template configurations (entries x extrapolated types x selectors)',
+    calls = K.spec_to_code(rep, env, conf, 'MC_Extrapolate', 'MC_Extrapolate_quick.cfg',
+                           'grammar of template configurations (<= 2 entries x extrapolated types x one selector)',
                            var='cfg', transform=to_calls)
+    if tier == 'thorough':
+        calls += K.spec_to_code(rep, env, conf, 'MC_Extrapolate', 'MC_Extrapolate_thorough2.cfg',
+                                'grammar: <= 2 entries x extrapolated types x up to two selectors of up to two pairs',
+                                var='cfg', transform=to_calls)
+        calls += K.spec_to_code(rep, env, conf, 'MC_Extrapolate', 'MC_Extrapolate_thorough.cfg',
+                                'grammar: <= 3 entries x up to two extrapolated types (no selectors)',
+                                var='cfg', transform=to_calls, timeout=6000)
     # the shipped configuration itself: the raw templates of the working tree
     raw = json.load(open(conf))
     calls.append(dict(op='extrapolate', cfg=dict(templates=raw['templates'], toX=raw['to_extrapolate'], kps=raw['key_patterns'])))
@@ -459,7 +469,7 @@ def check_C18(tier):
     hists = calls_from_dump(r.dumpfile, var='hist')
     depth = max(len(h) for h in hists)
     behaviours = [h for h in hists if len(h) == depth]
-    nsim, dsim = (30, 9) if tier == 'quick' else (600, 9)
+    nsim, dsim = (30, 9) if tier == 'quick' else (200, 9)
     if tier == 'quick' and len(behaviours) > 320:
         behaviours = random.Random(SEED).sample(behaviours, 320)
     rs, sims = _sim_behaviours('VersionDyn', 'VersionDyn_gen.cfg', conf, nsim, dsim)
